@@ -69,6 +69,11 @@ void handler_fire_stanza(xmpp_conn_t *conn, xmpp_stanza_t *stanza)
     const char *id, *ns, *name, *type;
     int ret;
 
+    /* enable all added handlers: also before the id handlers run, so that a
+       stanza handler added by an id handler does not see this stanza */
+    for (item = conn->handlers; item; item = item->next)
+        item->enabled = 1;
+
     /* call id handlers */
     id = xmpp_stanza_get_id(stanza);
     if (id) {
@@ -110,10 +115,6 @@ void handler_fire_stanza(xmpp_conn_t *conn, xmpp_stanza_t *stanza)
     ns = xmpp_stanza_get_ns(stanza);
     name = xmpp_stanza_get_name(stanza);
     type = xmpp_stanza_get_type(stanza);
-
-    /* enable all added handlers */
-    for (item = conn->handlers; item; item = item->next)
-        item->enabled = 1;
 
     item = conn->handlers;
     while (item) {
